@@ -22,7 +22,7 @@ from ..oracle import g711, shorten_model as M, sphere_writer as SW
 
 OPTIMIZED_SHARDS = 1  # shards run once more in an interpreter started with -O (vf/run.py)
 LEVEL = "exploration"
-TECHNIQUE = "runtime monitor on read_signal(sph) fed by an independent randomised shorten encoder with a reference-decoder self-check; malformed-stream fault injection"
+TECHNIQUE = "runtime monitor on read_signal(sph) fed by an independent randomised shorten encoder with a reference-decoder self-check; malformed-stream fault injection; ambient-settings monitor (stateless calls repeated under -W error and np.errstate raise)"
 RULE = (
     "streams: seeded (version 1/2, 1-4 channels, 1-2000 samples, initial block size 3-64, running-mean length 0-4, max LPC order 0-8, sample type s16 LE / s16 BE / "
     "mu-law(AU2, shift 0)); the encoder picks per block DIFF0-3 / QLPC (random order <= max, random coefficients) / ZERO for all-zero blocks, the residual "
